@@ -41,6 +41,7 @@ func main() {
 	n := flag.Int("n", 300, "number of generated cases (per stream family)")
 	per := flag.Int("per", 100, "cases per Coq chunk")
 	exhaustive := flag.Bool("exhaustive", false, "C09: all fault pairs; C10: every cancellation point")
+	maxNodes := flag.Int("maxnodes", 4, "C01 -exhaustive: nodes below the root")
 	corpus := flag.String("corpus", "", "JSON list of regression cases (witnesses of fixed findings), run first")
 	replay := flag.String("replay", "", "replay a JSON case file and print implementation result + coq-case")
 	flag.Parse()
@@ -103,6 +104,12 @@ func main() {
 		}
 		for i := 0; i < *n/4; i++ {
 			cases = append(cases, genC01Multi(r))
+		}
+		for i := 0; i < *n/8; i++ {
+			cases = append(cases, genC01OnDisk(r, i))
+		}
+		if *exhaustive {
+			cases = append(cases, genC01Exhaustive(*maxNodes)...)
 		}
 	case "C08":
 		cases = append(cases, fixedC08()...)
@@ -194,6 +201,17 @@ func fixedC01() []*Case {
 		mk("fixed", dir(".", dir("a", file("z", 1)), dir("ab", file("z", 1)), dir("lib", dir("a", file("z", 1)))), func(c *Case) { c.SkipList = []string{"a"} }),
 		// a symlink whose target is over the size limit; its directory entry reports the length of the link text
 		mk("fixed", dir(".", &Node{Name: "a", Kind: "sym", Size: 100}, &Node{Name: "b", Kind: "sym", Size: 3}, file("c", 100)), func(c *Case) { c.Symlinks = true; c.MaxSize = 10 }),
+		// every non-regular type, with symlink reading on: only the plain symlink is extracted
+		mk("fixed", dir(".", &Node{Name: "a", Kind: "sym", Size: 1}, &Node{Name: "b", Kind: "special", Bits: 16, Size: 1}, &Node{Name: "c", Kind: "special", Bits: 32, Size: 1},
+			&Node{Name: "z", Kind: "special", Bits: 2, Size: 1}, &Node{Name: "lib", Kind: "special", Bits: 6, Size: 1}, &Node{Name: "src", Kind: "special", Bits: 8, Size: 1},
+			&Node{Name: "ab", Kind: "special", Bits: 1 | 32, Size: 1}, &Node{Name: "srcs", Kind: "special", Bits: 1 | 16, Size: 1}, file("d.txt", 1)), func(c *Case) { c.Symlinks = true }),
+		// the sub-directory cut-off does not exempt a requested directory from the other skip rules
+		mk("fixed", dir(".", dir("a", file("z", 1)), dir("b", file("z", 1)), dir("c", file("z", 1))), func(c *Case) {
+			c.IgnoreSub = true
+			c.Paths = []string{"a", "b", "c"}
+			c.Regex = sp("^a$")
+			c.Glob = sp("b")
+		}),
 		// FileRequired consults api.Stat()
 		mk("fixed", dir(".", file("a", 4), file("b", 20)), func(c *Case) { c.StatReq = []StatReq{{Ext: "e0", Min: 10}} }),
 	}
@@ -219,8 +237,8 @@ func fixedC08() []*Case {
 		return c
 	}
 	return []*Case{
-		mk("fixed", []*Node{dir(".", file("a", 1)), dir(".")}, nil),                      // root 1 reported twice
-		mk("fixed", []*Node{dir("."), dir(".", file("a", 1))}, nil),                      // inside D: only the last root yields
+		mk("fixed", []*Node{dir(".", file("a", 1)), dir(".")}, nil), // root 1 reported twice
+		mk("fixed", []*Node{dir("."), dir(".", file("a", 1))}, nil), // inside D: only the last root yields
 		mk("fixed", []*Node{dir(".", file("a", 1)), dir(".", file("b", 1)), dir(".", file("c", 1))}, nil),
 		mk("fixed", []*Node{dir(".", file("b", 1), file("a", 1))}, func(c *Case) { c.Extract[0].Pkgs[0].Name = "p"; c.Extract[1].Pkgs[0].Name = "p" }),
 		mk("fixed", []*Node{dir(".")}, func(c *Case) {
@@ -241,9 +259,9 @@ func fixedC10() []*Case {
 		return c
 	}
 	return []*Case{
-		mk(dir(".", dir("a")), func(c *Case) { c.Gitignore = true; c.MaxInodes = 1 }),                          // limit hit at a directory
+		mk(dir(".", dir("a")), func(c *Case) { c.Gitignore = true; c.MaxInodes = 1 }),                        // limit hit at a directory
 		mk(dir(".", dir("a")), func(c *Case) { c.Gitignore = true; c.Cancel = Cancel{Kind: "visit", N: 0} }), // cancelled before the scan
-		mk(dir(".", file("a", 1)), func(c *Case) { c.Gitignore = true; c.MaxInodes = 1 }),                     // limit hit at a file: no panic
-		mk(dir(".", dir("a")), func(c *Case) { c.MaxInodes = 1 }),                                              // without gitignore: plain error
+		mk(dir(".", file("a", 1)), func(c *Case) { c.Gitignore = true; c.MaxInodes = 1 }),                    // limit hit at a file: no panic
+		mk(dir(".", dir("a")), func(c *Case) { c.MaxInodes = 1 }),                                            // without gitignore: plain error
 	}
 }
